@@ -523,8 +523,10 @@ def synBlock (s : Tcb) (seg : Hdr) : B :=
   else
   match s.state with
   | .SynSent =>
+    -- `SND.WL2`: the ACK field means something only under the ACK bit; a SYN without ACK
+    -- (simultaneous open) acknowledges nothing yet, the window is as of ISS
     let s := { s with rcv.irs := seg.seq, rcv.nxt := seg.seq + 1, snd.wnd := seg.wnd,
-                      snd.wl1 := seg.seq, snd.wl2 := seg.ack }
+                      snd.wl1 := seg.seq, snd.wl2 := if seg.ctl.ack then seg.ack else s.snd.iss }
     if modGt s.snd.una s.snd.iss then
       let s := { s with state := .Established }
       enqueueThen s s.ackHdr fun s => .ok (s, none)
@@ -662,7 +664,7 @@ def segmentArrivesListen (segment : Segment) (iss : Seq) (mtu : U16) :
     let tcb : Tcb :=
       { localPort := seg.dstPort, remotePort := seg.srcPort, mtu, initiation := .Listen,
         state := .SynReceived,
-        snd := { iss := iss, una := iss, nxt := iss + 1, wnd := seg.wnd, wl1 := seg.seq, wl2 := seg.ack },
+        snd := { iss := iss, una := iss, nxt := iss + 1, wnd := seg.wnd, wl1 := seg.seq, wl2 := iss },
         rcv := { irs := seg.seq, nxt := rcvNxt } }
     match tcb.enqueue ((((tcb.headerBuilder iss).withSyn).withAck rcvNxt).withWnd ({} : Rcv).wnd) with
     | .error e => .error e
